@@ -104,7 +104,9 @@ class _RunMachine(Machine):
                 return True
             names = [ast.unparse(x).split(".")[-1] for x in (h.type.elts if isinstance(h.type, ast.Tuple) else [h.type])]
             w = str(what).split(":")[0].split("(")[0].strip("'\" ")
-            return w in names or "BaseException" in names or ("Exception" in names and w != "KeyboardInterrupt")
+            os_errors = ("FileExistsError", "FileNotFoundError", "PermissionError", "IsADirectoryError", "NotADirectoryError", "BlockingIOError")
+            return w in names or "BaseException" in names or ("Exception" in names and w != "KeyboardInterrupt") \
+                or (w in os_errors and ({"OSError", "IOError", "EnvironmentError"} & set(names)))
         try:
             try:
                 self.run(st.body)
